@@ -129,6 +129,10 @@ def run_e2e(c):
             ts = (BASE + real_datetime.timedelta(seconds=t)).timestamp()
             os.utime(path, (ts, ts))
             infos[path] = -(i + 1)
+        if c.get("symlink"):
+            # a second name for the function directory inside the store (kept after a rename): a symbolic link, which
+            # an inventory must not follow
+            os.symlink(func_dir, func_dir + "_alias")
         # independent inventory of the store (standard library only), taken before get_items: every directory whose
         # name is 32 hex digits is an entry; its size is the size of its files; its access time is the one of
         # output.pkl, of the directory itself when there is no output.pkl (read after listing the directory)
@@ -159,12 +163,23 @@ def run_e2e(c):
                 if k == c["vanish"]:
                     raise OSError(errno.ESTALE, "Stale file handle", location)
             backend.clear_location = faulty_clear
+        # the order in which entries are removed (an interrupted reduce_size must have removed the OLDEST ones)
+        order = []
+        backend0 = mem.store_backend
+        inner_clear = backend0.clear_location
+
+        def logging_clear(location):
+            order.append(infos.get(location, infos.get(os.path.normpath(location), 0)))
+            return inner_clear(location)
+        backend0.clear_location = logging_clear
         try:
             mem.reduce_size(c["bl"], c["il"], al)
         except Exception as e:  # noqa
             return dict(canon_exc(e), items=seen, fs_items=fs_items)
-        if c.get("vanish") is not None:
+        try:
             del mem.store_backend.clear_location      # back to the class's method
+        except AttributeError:
+            pass
         survivors = [arg for arg, n, t in c["entries"] if cf.check_call_in_cache(arg, n)]
         dirs_left = sorted(infos[p] for p in infos if os.path.isdir(p))
         # every entry must still give the right value; evicted ones are recomputed
@@ -172,6 +187,7 @@ def run_e2e(c):
         values_ok = all(cf(arg, n) == (arg, payload(n)) for arg, n, t in c["entries"])
         recomputed = sorted(calls)
         return {"ok": True, "items": seen, "fs_items": fs_items, "survivors": sorted(survivors), "dirs_left": dirs_left,
+                "deleted_order": order,
                 "values_ok": values_ok, "recomputed": recomputed}
     finally:
         os.chdir(cwd0)
